@@ -89,6 +89,9 @@ Definition nan_where (hidden : nat -> nat -> bool) (a : nat -> nat -> V) : nat -
 (* what quiver does with two coordinate vectors and (n1, n0) arrays: meshgrid, then ravel *)
 Definition ravel_rows (rows : list (list V)) : list V := concat rows.
 End Arrays.
+Arguments transpose_rows {V}.
+Arguments nan_where {V}.
+Arguments ravel_rows {V}.
 
 (* trusted matplotlib semantics ------------------------------------------------------
    imshow(A, origin='lower', extent=[x0,x1,y0,y1]) paints A[r][c] on
@@ -157,8 +160,8 @@ Definition extent (r : region) (m : Q) : list Q :=
 Definition axis_label (d p u : string) : string :=
   (d ++ " (" ++ p ++ u ++ ")")%string.
 Definition axis_labels (r : region) (p : string) : string * string :=
-  (axis_label (nth 0 (dims r) "") p (nth 0 (units r) ""),
-   axis_label (nth 1 (dims r) "") p (nth 1 (units r) ""))%string.
+  (axis_label (nth 0 (dims r) ""%string) p (nth 0 (units r) ""%string),
+   axis_label (nth 1 (dims r) ""%string) p (nth 1 (units r) ""%string)).
 
 (* mesh.cells[a] / multiplier *)
 Definition centres (r : region) (k : nat) (a : nat) (m : Q) : list Q :=
@@ -202,7 +205,7 @@ Fixpoint rev_lookup (d : string) (m : list (string * option string)) : option st
       | None => match v with Some d' => if String.eqb d d' then Some k else None | None => None end
       end
   end.
-Definition r_dim (f : pfield) (a : nat) : option string := rev_lookup (nth a (dims (preg f)) "") (pmap f).
+Definition r_dim (f : pfield) (a : nat) : option string := rev_lookup (nth a (dims (preg f)) ""%string) (pmap f).
 
 (* the two names: from the vdims argument or through the reversed mapping *)
 Definition arrow_names (f : pfield) (arg : option (list (option string))) : res (option string * option string) :=
@@ -214,7 +217,7 @@ Definition arrow_names (f : pfield) (arg : option (list (option string))) : res 
 Definition comp_index (f : pfield) (name : option string) : res (option nat) :=
   match name with
   | None => OK None
-  | Some s => if String.eqb s "" then OK None else
+  | Some s => if String.eqb s ""%string then OK None else
               match index_of s (pvdims f) with Some k => OK (Some k) | None => Err ValueE end
   end.
 
@@ -340,8 +343,8 @@ Definition comp_list (f : pfield) (k : nat) : list Q :=
   flat_map (fun i => map (fun j => fval f k i j) (iota 0 (n1 f))) (iota 0 (n0 f)).
 
 (* admissible lightness sources for a vector field without lightness_field *)
-Definition plot_lightness (f : pfield) (mu : mult_arg) (flt lf : option aux) (clim : option (Q * Q))
-           (tabs : libtabs) : res (list light_out) :=
+Definition plot_lightness_with (hid : nat -> nat -> bool) (f : pfield) (mu : mult_arg) (flt lf : option aux)
+           (clim : option (Q * Q)) (tabs : libtabs) : res (list light_out) :=
   do _ <- mpl_init f;
   if (3 <? pnv f)%nat then Err RuntimeE else
   let cl := match clim with Some c => c | None => (0, 1) end in
@@ -377,8 +380,12 @@ Definition plot_lightness (f : pfield) (mu : mult_arg) (flt lf : option aux) (cl
   let lights := match lf with Some a => [lf_light a] | None => snd hl end in
   if (length lights =? 0)%nat then Err KeyE else
   OK (map (fun light =>
-        mkLight (lightness_rgba colorsys_hls_to_rgb k0 k1 (twopi tabs) (fst hl) light cl (hidden f flt))
+        mkLight (lightness_rgba colorsys_hls_to_rgb k0 k1 (twopi tabs) (fst hl) light cl hid)
                 (extent (preg f) (fst mp)) (axis_labels (preg f) (snd mp))) lights).
+
+Definition plot_lightness (f : pfield) (mu : mult_arg) (flt lf : option aux) (clim : option (Q * Q))
+           (tabs : libtabs) : res (list light_out) :=
+  plot_lightness_with (hidden f flt) f mu flt lf clim tabs.
 
 (* ------------------------------------------------------------------ field.mpl(...) *)
 (* __call__: scalar part (component k_s, filter = validity unless given) + vector part without colour *)
